@@ -61,7 +61,19 @@ pub(crate) trait Selector<I: Interest, E: Event, S: EventIterator<E>> {
             self.blocker().block(timeout.unwrap_or(SLICE));
             return Ok(());
         }
+        #[cfg(feature = "verif")]
+        let verif_timeout = timeout;
+        #[cfg(feature = "verif")]
+        let timeout = if crate::verif::is_virtual_driver() {
+            Some(Duration::ZERO)
+        } else {
+            timeout
+        };
         let result = self.do_select(events, timeout);
+        #[cfg(feature = "verif")]
+        if events.iterator().next().is_none() {
+            _ = crate::verif::clock_advance(verif_timeout.unwrap_or(SLICE));
+        }
         self.waiting().store(false, Ordering::Release);
         for event in events.iterator() {
             let token = event.get_token();
